@@ -7,6 +7,7 @@
 #include <dispenso/completion_event.h>
 #include <dispenso/latch.h>
 #include "vf.h"
+#include "probe.h"
 
 #ifndef VF_KIND
 #define VF_KIND 0
@@ -27,6 +28,11 @@ static void reader2(void*) {
   vf_check(rd(&g_a) == 1, "value published before notify is visible after wait");
 }
 extern "C" void vf_main() {
+  {
+    VfAtomic noPreempt;
+    warm_atomic(E.intrusiveStatus());
+    warm_probe(&g_a);
+  }
   vf_spawn(writer, nullptr);
   vf_spawn(reader2, nullptr);
   E.wait(1);
@@ -44,6 +50,12 @@ static void writerB(void*) {
   L.count_down();
 }
 extern "C" void vf_main() {
+  {
+    VfAtomic noPreempt;
+    warm_atomic(L.impl_.intrusiveStatus());
+    warm_probe(&g_a);
+    warm_probe(&g_b);
+  }
   vf_spawn(writerA, nullptr);
   vf_spawn(writerB, nullptr);
   L.wait();
@@ -58,6 +70,12 @@ static void peer(void*) {
   vf_check(rd(&g_b) == 1, "value published before arrive_and_wait is visible to the peer");
 }
 extern "C" void vf_main() {
+  {
+    VfAtomic noPreempt;
+    warm_atomic(L.impl_.intrusiveStatus());
+    warm_probe(&g_a);
+    warm_probe(&g_b);
+  }
   vf_spawn(peer, nullptr);
   wr(&g_b, 1);
   L.arrive_and_wait();
